@@ -1,17 +1,17 @@
 SPECIFICATION Spec
 CONSTANTS
   NF = 2
-  MaxLen = 12
-  Kinds = {"mod", "add", "addempty", "del", "rename", "renmod", "copy", "modeonly", "modemod", "bin", "binadd", "bare", "modebin", "renmode", "sublog", "subshort", "binx", "renbin"}
-  MaxHunks = 2
-  MaxBody = 3
+  MaxLen = 13
+  Kinds = {"cc"}
+  MaxHunks = 1
+  MaxBody = 2
   Preamble = FALSE
   MaxConf = 1
   Buf = 1
   Fixes = {"D1", "D14", "D2", "D18", "D19", "D20", "D21", "D23", "D24"}
   ColorOnly = FALSE
   Modes = {}
-  ReplayLen = 12
+  ReplayLen = 13
 INVARIANTS RowsOnceInOrder Lag PrefixStable Boundary ReplaySections
 CONSTRAINT OneSection
 CHECK_DEADLOCK FALSE
